@@ -35,14 +35,14 @@ inductive Outcome (V : Type) where
   | err (e : Nat)                                         -- `Err(error_recording)`
   | noIndividuals                                         -- `Err(Error::NoIndividuals)`
   | badGuess                                              -- the explicit initial value was rejected
-  deriving Repr
+  deriving Repr, DecidableEq
 
 inductive Act (V : Type) where
   | start (seed id : Nat) (v : V)                         -- `obj_func.evaluate(value, _, seed, id)` is called
   | broadcastAbort                                        -- `abort_signal_sender.broadcast(())`
   | item (id seed : Nat) (r : Option Int)                 -- a `DetailedReportItem` is sent
   | ret (o : Outcome V) (dropped : List Nat)              -- the function returns; seeds of futures dropped unfinished
-  deriving Repr
+  deriving Repr, DecidableEq
 
 structure St (V : Type) where
   core : Algo.St V
